@@ -237,3 +237,74 @@ def gen(rng, maxn):
         n = rng.randint(0, maxn)
     f = rng.choice(KINDS + [mixed, mixed, text, longcopies, noisecopies])
     return f.__name__, f(rng, n)
+
+
+def _units(rng, out, count, lit, ml, near):
+    """`count` units of `lit` fresh random bytes followed by an `ml`-byte copy of earlier data (one sequence each for a parser that
+    finds the copy): near = small recurring distances, else far unique spots"""
+    dists = [rng.randint(ml + 1, 900) for _ in range(3)]
+    for _ in range(count):
+        out += randbytes(rng, lit)
+        if near:
+            d = rng.choice(dists)
+        else:
+            d = rng.randint(ml + 1, max(ml + 2, min(len(out) - 1, 100000)))
+        if d >= len(out):
+            d = len(out) - 1
+        for _k in range(ml):
+            out.append(out[-d])
+
+
+def splitlong(rng, nblocks):
+    """every 128 KiB block: K one-sequence units of one style, ONE copy longer than 64 KiB, K-1 units of another style - the long sequence
+    sits at the middle sequence index, where the post-parse block splitter cuts first (long-length marker at a partition start)"""
+    BLK = 131072
+    out = bytearray(text(rng, BLK))
+    for b in range(nblocks):
+        start = len(out)
+        a_lit, a_ml = rng.choice([(8, 12), (6, 9), (12, 20)])
+        b_lit, b_ml = rng.choice([(2, 40), (3, 30), (1, 24)])
+        ua, ub = a_lit + a_ml, b_lit + b_ml
+        K = rng.randint(200, (BLK - 65560) // (ua + ub))
+        pre = rng.randint(1, 6)
+        longlen = BLK - K * ua - (K - 1) * ub - pre
+        _units(rng, out, K, a_lit, a_ml, False)
+        out += randbytes(rng, pre)
+        st = rng.randrange(0, max(1, start - longlen - 10))
+        out += out[st:st + longlen]
+        _units(rng, out, K - 1, b_lit, b_ml, True)
+        assert len(out) - start == BLK
+    return bytes(out)
+
+
+def splitraw(rng, nblocks):
+    """every 128 KiB block: a first half of noise carrying sparse 4-5 byte copies at three recurring distances (not worth compressing,
+    yet it owns sequences), a second half of well-compressible units that re-use exactly those distances at once - when the splitter
+    stores the first partition raw the decoder never sees its sequences and the repeat-offset history must be rewound"""
+    BLK = 131072
+    out = bytearray(text(rng, BLK))
+    for b in range(nblocks):
+        start = len(out)
+        dists = [rng.randint(8, 2000) for _ in range(3)]
+        nA = rng.choice([160, 200, 320, 400])
+        half = rng.choice([60000, 65536, 70000])
+        gap = half // nA
+        seg = bytearray(randbytes(rng, half))
+        i = max(dists) + 1
+        cnt = 0
+        while i + 6 < half:
+            d = rng.choice(dists); ln = rng.choice([4, 4, 5])
+            base = start + i
+            for k in range(ln):
+                src = base + k - d
+                seg[i + k] = out[src] if src < start else seg[src - start]
+            i += rng.randint(max(8, gap - 20), gap + 20); cnt += 1
+        out += seg
+        # second half: units re-using the same distances straight away
+        while len(out) - start < BLK - 64:
+            out += randbytes(rng, rng.choice([1, 2, 3]))
+            d = rng.choice(dists); ml = rng.choice([6, 12, 30])
+            for _k in range(ml):
+                out.append(out[-d])
+        out += randbytes(rng, BLK - (len(out) - start))
+    return bytes(out)
